@@ -3,8 +3,8 @@
    Model: model/Seeder.v (labelled transition system of the reader loop, the sender workers and
    the API calls; all schedules = all label sequences; repaired code, fixes/C17.patch).
    Specification: spec/SeederSpec.v. *)
-From Coq Require Import NArith List Bool.
-From LV Require Import model.Seeder spec.SeederSpec proofs.SeederProofs proofs.SeederQueues proofs.SeederSessions proofs.SeederLifetime proofs.SeederCounts proofs.SeederRefine proofs.SeederLiveness.
+From Coq Require Import NArith List Bool Sorted.
+From LV Require Import model.Seeder spec.SeederSpec proofs.SeederProofs proofs.SeederQueues proofs.SeederSessions proofs.SeederLifetime proofs.SeederCounts proofs.SeederRefine proofs.SeederLiveness proofs.SeederOrder.
 Import ListNotations.
 Local Open Scope N_scope.
 
@@ -60,6 +60,32 @@ Theorem C17_spec_prefix_decides : forall l m, is_prefix l m = true <-> exists re
 Proof. exact is_prefix_spec. Qed.
 Theorem C17_spec_equal_decides : forall l m, items_eqb l m = true <-> l = m.
 Proof. exact items_eqb_spec. Qed.
+
+(* Per incarnation the responses are sent in the order of the requests they serve (what the
+   checker tags_sorted tests on the implementation's logs). *)
+Theorem C17_sent_in_request_order : forall cfg db ops k,
+  sorted_keys db ->
+  let tr := snd (run v_fixed cfg db (init cfg) ops) in
+  StronglySorted ser_le (sel k (sents tr)).
+Proof. exact sent_in_request_order. Qed.
+
+(* The remaining boolean checkers of SeederSpec.seeder_spec_ok decide the Props used in the
+   theorems: tags_sorted <-> adjacent responses serve non-decreasing serials
+   (C17_sent_in_request_order); done_only_last <-> no response before the last is marked done
+   (C17_session_content); counts_ok / done_by <-> every served request got its chunks or a done
+   response of its incarnation with a serial not later than its own (C17_requests_complete). *)
+Theorem C17_spec_tags_sorted_decides : forall rs,
+  tags_sorted rs = true <-> forall l1 x y l2, rs = l1 ++ x :: y :: l2 -> o_tag x <= o_tag y.
+Proof. exact tags_sorted_spec. Qed.
+Theorem C17_spec_done_only_last_decides : forall rs,
+  done_only_last rs = true <-> forall l1 x l2, rs = l1 ++ x :: l2 -> l2 <> [] -> o_done x = false.
+Proof. exact done_only_last_spec. Qed.
+Theorem C17_spec_counts_decides : forall ops exp incs,
+  counts_ok ops exp incs = true <->
+  forall rq c, In (SReq rq) ops -> expect_of (r_serial rq) exp = Some (XServe c) ->
+    count_tag (r_serial rq) (inc_of c incs) = r_chunks rq \/
+    exists x, In x (inc_of c incs) /\ o_done x = true /\ o_tag x <= r_serial rq.
+Proof. exact counts_ok_spec. Qed.
 
 (* non-vacuity: a sorted item list and a history in which a session is created, resumed and
    finished *)
@@ -215,6 +241,10 @@ Print Assumptions C17_limits.
 Print Assumptions C17_session_content.
 Print Assumptions C17_spec_prefix_decides.
 Print Assumptions C17_spec_equal_decides.
+Print Assumptions C17_sent_in_request_order.
+Print Assumptions C17_spec_tags_sorted_decides.
+Print Assumptions C17_spec_done_only_last_decides.
+Print Assumptions C17_spec_counts_decides.
 Print Assumptions C17_peer_sessions_exact.
 Print Assumptions C17_session_resumable.
 Print Assumptions C17_resume_no_creation.
